@@ -614,7 +614,21 @@ def shrink(rn, sline, dline, store, t, kind, text_of, tcase=None):
                 break
     except Exception:
         pass
-    # drop entities, then fields, sets and set elements
+    # drop entities (blocks first: the hand-built sweep datasets hold dozens of entities per store, a failing filter
+    # needs one per hop), then fields, sets and set elements
+    for si in range(len(stores)):
+        size = len(stores[si])
+        while size >= 2 and len(stores[si]) > 4:
+            i = 0
+            while i < len(stores[si]):
+                cand = [list(x) for x in stores]
+                del cand[si][i:i + size]
+                dl = dataset_line(cand)
+                if try_(dl, t):
+                    stores, dline = cand, dl
+                else:
+                    i += size
+            size //= 2
     for si in range(len(stores)):
         i = 0
         while i < len(stores[si]):
@@ -726,7 +740,7 @@ def main(argv):
     cases_path = os.path.join(c.work, "cases.txt")
     cases = vlib.read_lines(cases_path)
     impl = vlib.read_lines(os.path.join(c.work, "impl.txt"))
-    modl = vlib.run_model(model, "c01", cases_path, os.path.join(c.work, "model.txt"))
+    modl = run_model_parallel(model, cases, c.work)
     assert len(cases) == len(impl) == len(modl), (len(cases), len(impl), len(modl))
 
     sline = dline = None
@@ -911,6 +925,10 @@ def main(argv):
                      "a bounded-exhaustive coercion sweep (every position where a literal is decoded or a number becomes a string: string / fk / int / float / any-typed symbols, "
                      "string sets, dotted symbols x 10 operators x number literals of every lexical form and magnitude, int64 boundaries, string literals built from the escape "
                      "characters, strings spelling numbers; in / not in arrays of them; dataset holding the same strings and numbers) + "
+                     "a bounded-exhaustive boundary sweep (c01_boundary.go: the empty string, zeros of every width, -0.0, false, the zero instants, nil markers and absent fields at the END of "
+                     "every symbol path shape - direct, fk chains of 1-3 hops, dotted sets set.T / set.fk.T / fk.set.T / set.set.T, map elements, sub-query predicates, child-store symbols - "
+                     "reached through entities that hold such values themselves, every way a hop can fail (fk nil / absent / empty / dangling / a number) at every position, "
+                     "x 10 operators x type-specific literals, in / not in, between / not between, null tests, boolean symbols, anyOf / allOf / count / isEmpty) + "
                      "seeded random null-heavy datasets (0-12 entities) x filters from a typed grammar-directed generator (nesting <= 4). "
                      "Observables: id lists of QueryIds and IterateIds. Non-trivial: the filter is well-typed and selects at least one entity; "
                      "distinct by (dataset, filter text).  Schema variants (symbols stored under keys / prefixes other than their names, keys swapped between symbols; "
@@ -929,6 +947,53 @@ def main(argv):
         c.violation("C01:proof", "proof obligation no longer checks: %s" % json.dumps(c.proof_broken)[:600],
                     dict(broken=c.proof_broken), no_input=True)
     return c.finish()
+
+
+def run_model_parallel(model, cases, work, chunk=2500):
+    """the extracted model on all case lines, VERIF_JOBS processes at a time.  The only state the driver carries from
+    line to line is the current schema (S) and dataset (D): the case file is cut into units of about `chunk` lines, each
+    unit starts with the S and D lines in force (their output lines are dropped again), the outputs are concatenated."""
+    from concurrent.futures import ThreadPoolExecutor
+    try:
+        jobs = max(1, int(os.environ.get("VERIF_JOBS", "4")))
+    except ValueError:
+        jobs = 4
+    units = []          # (number of prefix lines, lines)
+    sline = dline = None
+    cur = None
+    for line in cases:
+        if cur is None or len(cur[1]) - cur[0] >= chunk:
+            pre = []
+            if not line.startswith("S "):
+                if sline is not None:
+                    pre.append(sline)
+                if dline is not None and not line.startswith("D "):
+                    pre.append(dline)
+            cur = [len(pre), pre]
+            units.append(cur)
+        cur[1].append(line)
+        if line.startswith("S "):
+            sline, dline = line, None
+        elif line.startswith("D "):
+            dline = line
+    wd = os.path.join(work, "model_units")
+    os.makedirs(wd, exist_ok=True)
+
+    def one(k):
+        npre, lines = units[k]
+        inp = os.path.join(wd, "u%d.txt" % k)
+        with open(inp, "w") as f:
+            f.write("\n".join(lines) + "\n")
+        out = vlib.run_model(model, "c01", inp, os.path.join(wd, "m%d.txt" % k))
+        if len(out) != len(lines):
+            raise RuntimeError("model unit %d: %d output lines for %d case lines" % (k, len(out), len(lines)))
+        return out[npre:]
+    with ThreadPoolExecutor(max_workers=jobs) as ex:
+        parts = list(ex.map(one, range(len(units))))
+    modl = [x for part in parts for x in part]
+    with open(os.path.join(work, "model.txt"), "w") as f:
+        f.write("\n".join(modl) + "\n")
+    return modl
 
 
 _render_cache = {}
